@@ -26,7 +26,7 @@ PROPS = {
         lean_modules=["L4.Props.C11", "L4.Expect.C11"],
         stages=[dict(name="health", pkg="./modules/l4proxy/", test="TestVerifHealth", files=HEALTH, nq=48, nt=600)],
         level_text="Kernel-checked on an operational model of the accounting in modules/l4proxy (peer failure / connection / unhealthy counters as Go integers, countFailure with its sleeping forgetters, Upstream.healthy / full / available, the retry loop of Handle gated by tryAgain, counting of proxied connections around proxy, doActiveHealthCheck) for every configuration and every history of time passing, client connections, connection ends, active checks, outages and recoveries: a peer's failure count is exactly the number of its dial failures from the last fail_duration (none forgotten twice, none kept longer), an upstream is out of rotation exactly while a peer is marked down or remembers at least max_fails failures and returns once fail_duration has passed, counters never go negative, a peer's connection count is the number of open proxied connections through upstreams dialing it, an upstream with a limit never holds more open proxied connections than the limit, the attempts of one Handle happen at start + j × try_interval, are retried only while less than try_duration has elapsed and end with an error only after try_duration (one attempt when it is 0), and the unhealthy mark of a peer is set exactly by its last active check. The statement-level facts the model encodes (countFailure: two configuration guards, count, forget after fail_duration; Handle: count per peer after the dial loop, deferred un-count; dialPeers: counts failures, never connections; tryAgain; doActiveHealthCheck) are regenerated from the source and checked by theorem; timed histories against the real Handler with switchable loopback peers are compared exactly with the model (outcome and retries of every Handle, all peer counters and availability at the sample instants; histories with a decision within 25 ms of a forgetter or planned outage are not compared) and judged by predicates computed from the harness' own log.",
-        level_note="Trusted: Lean kernel, extractor AST patterns, harness + driver, Go timers and atomics. Partial: real time — instants are measured in ms and a history whose retry timing is noisy is re-run up to three times; the model treats a Handle (select, dial, count) as one atomic step, so the check-then-act window between selection and counting under concurrent connections (limit overshoot bounded by in-flight dials) is not a theorem and concurrent in-flight dial failures are exercised only through direct countFailure calls; selection is `first` (the other policies are C10's); the active checker's ticker is not run in real time (doActiveHealthCheck is called directly).",
+        level_note="Trusted: Lean kernel, extractor AST patterns, harness + driver, Go timers and atomics. Partial: real time — instants are measured in ms and a history whose retry timing is noisy is re-run up to three times; the model treats a Handle (select, dial, count) as one atomic step, the check-then-act window between selection and counting under concurrent connections is covered by a separate small transition system (overshoot ≤ peak number of dials in flight − 1, none for sequential arrivals: theorem) that is not itself tied to the code by a differential; concurrent in-flight dial failures are exercised only through direct countFailure calls; selection is `first` (the other policies are C10's); the active checker's ticker is not run in real time (doActiveHealthCheck is called directly).",
         rule="health: 1-3 upstreams of 1-2 peers over 4 switchable loopback listeners; passive checks on/off, fail_duration 0/150/220/300 ms, max_fails 0-3, unhealthy_connection_count 0-2, max_connections 0-2, try_duration 0/100/180 ms with try_interval 40/60 ms; 4-12 events per history: client connection (with a peer going down / coming back 20-110 ms into the retry loop in 1 of 3), end of a proxied connection, immediate outage / recovery, active check, directly reported dial failure, sample; 8 histories in parallel; non-trivial = history completed; distinct = distinct observation lines",
         assumptions=["events of one history are sequential: every Handle has connected or failed before the next event", "a refused loopback dial takes well under try_interval"],
     ),
